@@ -59,6 +59,8 @@ def base_specs(ctx, n):
             mon.add_pressure_control(rng, sp)
         if rng.random() < 0.3:
             mon.add_heat_consumer_bridge(rng, sp)
+        if prof != "heat":
+            mon.add_sole_link(rng, sp)          # every kind as the only link, both orientations, over the base nets
         out.append(sp)
     return out
 
@@ -105,6 +107,8 @@ def corr_patterns(ctx):
                 ctx.count("patterns_with_flow_return_connect")
             if info["directed"]:
                 ctx.count("patterns_with_directed_branch")
+            if not info["flags_as_documented"]:
+                ctx.count("patterns_pit_flags_not_as_documented")
             if obs is not None:
                 heat.append(cc.heat_case(net))
                 red.append(cc.red_case(net, "hydraulics"))
